@@ -122,6 +122,19 @@ func (c *Client) Reconnect() bool {
 // SetConnected changes what IsConnected / Write see without running any handler.
 func (c *Client) SetConnected(b bool) { c.mu.Lock(); c.connected = b; c.mu.Unlock() }
 
+// CountWritten reports how many recorded frames satisfy f, without consuming them.
+func (c *Client) CountWritten(f func(data []byte) bool) int {
+	c.mu.Lock()
+	defer c.mu.Unlock()
+	n := 0
+	for _, w := range c.Written {
+		if f(w) {
+			n++
+		}
+	}
+	return n
+}
+
 func (c *Client) TakeWritten() [][]byte {
 	c.mu.Lock()
 	defer c.mu.Unlock()
@@ -282,6 +295,19 @@ func (s *Server) Inject(id string, data []byte) error {
 		return errors.New("no such connection")
 	}
 	return h(ch, data)
+}
+
+// CountWritten reports how many recorded frames satisfy f, without consuming them.
+func (s *Server) CountWritten(f func(to string, data []byte) bool) int {
+	s.mu.Lock()
+	defer s.mu.Unlock()
+	n := 0
+	for _, w := range s.Written {
+		if f(w.To, w.Data) {
+			n++
+		}
+	}
+	return n
 }
 
 func (s *Server) TakeWritten() []Frame {
